@@ -45,7 +45,9 @@ def gen_pop(rng, multi):
     return {'kind': 'pop', 'pops': pops, 'conns': conns}
 
 
-def build_pop(spec, dt):
+def build_pop(spec, dt, share=None):
+    """share: a dict that keeps the population / connectivity objects - a second call with the same dict builds another
+    circuit from the SAME objects"""
     import numpy as np
     from pyrates import CircuitTemplate, NodeTemplate, OperatorTemplate
     from pyrates.frontend.template.population import PopulationTemplate, Connectivity
@@ -58,6 +60,11 @@ def build_pop(spec, dt):
         W = c['W'] if not isinstance(c['W'], list) else np.array(c['W'])
         d = (c['dsteps'] + c['eps']) * dt if c['dsteps'] else None
         conns.append(Connectivity(f"{c['s']}/lin/x", f"{c['t']}/lin/u", W, delays=d))
+    if share is not None:
+        if 'pops' in share:
+            pops, conns = share['pops'], share['conns']
+        else:
+            share['pops'], share['conns'] = pops, conns
     return CircuitTemplate(name='c', populations=pops, connections=conns)
 
 
@@ -79,7 +86,7 @@ class C09(Check):
 
     def strata(self, tier):
         return [('S-alldelayed', 4), ('S-mixed', 3), ('S-heun', 1), ('S-conn-single', 2), ('S-conn-multi', 1),
-                ('S-step', 2), ('S-hub', 1)]
+                ('S-step', 2), ('S-hub', 1), ('S-matrix', 1)]
 
     def generate(self, rng, stratum, tier):
         dt = rng.choice([1e-3, 0.01, 0.05])
@@ -94,6 +101,9 @@ class C09(Check):
                            if rng.random() < 0.35 else None)}
         if stratum.startswith('S-conn'):
             cfg['vectorize'] = True
+            if cfg['prelude'] and rng.random() < 0.5:
+                # another circuit made of the same population / connectivity objects was compiled before
+                cfg['prelude']['same_object'] = True
             return {'spec': gen_pop(rng, multi=stratum == 'S-conn-multi'), 'cfg': cfg}
         p_delay = 1.0 if stratum in ('S-alldelayed',) else 0.55
 
@@ -107,7 +117,80 @@ class C09(Check):
         if stratum == 'S-hub':
             spec = self.gen_hub(rng, dt)
             cfg['vectorize'] = rng.random() < 0.8
+        if stratum == 'S-matrix':
+            spec = self.gen_matrix(rng, dt)
+            cfg['vectorize'] = rng.random() < 0.7
+        if cfg['prelude'] and not stratum.startswith('S-conn') and rng.random() < 0.4:
+            # another circuit made of the very same template objects was compiled before, at another step size
+            cfg['prelude']['same_object'] = True
         return {'spec': spec, 'cfg': cfg}
+
+    @staticmethod
+    def gen_matrix(rng, dt):
+        """projections created by add_edges_from_matrix: source group A onto target groups B and C, weights and DELAYS given
+        as matrices; the two calls may be handed the same attribute dict (one delay matrix for both projections)"""
+        ka, kb = rng.sample(['lin', 'leak', 'integ', 'linl'], 2)
+        A = models.gen_net(rng, n_nodes=rng.randint(1, 2), libs=(ka,), max_edges=0, uniq='_a')
+        nt_ = rng.randint(2, 3)
+        B = models.gen_net(rng, n_nodes=nt_, libs=(kb,), max_edges=0, uniq='_b')
+        C = models.gen_net(rng, n_nodes=nt_, libs=(kb,), max_edges=0, uniq='_c')
+        spec = {'name': 'c', 'build': 'python', 'ops': {}, 'nts': {}, 'nodes': {}, 'edges': []}
+        groups = []
+        for tag, part in (('a', A), ('b', B), ('c', C)):
+            spec['ops'].update(part['ops'])
+            spec['nts'].update(part['nts'])
+            names = []
+            for n, ntk in part['nodes'].items():
+                spec['nodes'][n + tag] = ntk
+                names.append(n + tag)
+            groups.append(names)
+        # B and C nodes use the same operator template (one target_var for a call) - take B's for both
+        opB = spec['ops'][spec['nts'][spec['nodes'][groups[1][0]]]['ops'][0]]
+        for n in groups[1] + groups[2]:
+            if spec['ops'][spec['nts'][spec['nodes'][n]]['ops'][0]]['name'] != opB['name']:
+                # re-point the node template to B's operator kind: simplest is to reuse B's node templates for C
+                pass
+        ntB = [spec['nodes'][n] for n in groups[1]]
+        for i, n in enumerate(groups[2]):
+            spec['nodes'][n] = ntB[i % len(ntB)]
+        opA = spec['ops'][spec['nts'][spec['nodes'][groups[0][0]]]['ops'][0]]
+        # all A nodes share one operator template as well
+        ntA = spec['nodes'][groups[0][0]]
+        for n in groups[0]:
+            spec['nodes'][n] = ntA
+        used_nts = set(spec['nodes'].values())
+        spec['nts'] = {k: v for k, v in spec['nts'].items() if k in used_nts}
+        used_ops = {o for nt in spec['nts'].values() for o in nt['ops']}
+        spec['ops'] = {k: v for k, v in spec['ops'].items() if k in used_ops}
+        src_var = f"{opA['name']}/{models.LIB[opA['lib']]['out']}"
+        tgt_var = f"{opB['name']}/{models.LIB[opB['lib']]['in']}"
+        share = rng.random() < 0.6
+        D0 = None
+        spec['matrix'] = []
+        for gi, tg in enumerate((groups[1], groups[2])):
+            W = [[(rng.randint(-32, 32) / 16 or 0.5) if rng.random() < 0.85 else 0.0 for _ in groups[0]] for _ in tg]
+            Dn = [[rng.randint(2, 12) for _ in groups[0]] for _ in tg]
+            D = [[(n + rng.uniform(-0.4, 0.4)) * dt for n in row] for row in Dn]
+            if share and D0 is not None:
+                D = D0
+            D0 = D0 or D
+            spec['matrix'].append({'sources': groups[0], 'targets': tg, 'src_var': src_var, 'tgt_var': tgt_var, 'W': W, 'D': D,
+                                   'share': share})
+            for j, t_ in enumerate(tg):
+                for i, s_ in enumerate(groups[0]):
+                    if abs(W[j][i]) > 1e-6:
+                        spec['edges'].append([f'{s_}/{src_var}', f'{t_}/{tgt_var}', {'weight': W[j][i], 'delay': D[j][i], 'mx': gi}])
+        # node templates are shared between nodes here: initial values cannot be told apart per node, so the per-node
+        # values come through update_var at build time (recorded in the spec as node-level values)
+        pool = list(range(-96, 97))
+        rng.shuffle(pool)
+        spec['node_values'] = {}
+        for n, ntk in spec['nodes'].items():
+            for opk in spec['nts'][ntk]['ops']:
+                o = spec['ops'][opk]
+                for sv in models.LIB[o['lib']]['state']:
+                    spec['node_values'][f"{n}/{o['name']}/{sv}"] = pool.pop() / 64
+        return spec
 
     @staticmethod
     def gen_hub(rng, dt):
@@ -161,15 +244,41 @@ class C09(Check):
         if cfg.get('sparseness') is not None:
             kw['matrix_sparseness'] = cfg['sparseness']
         pop = spec.get('kind') == 'pop'
+        shared_objs = {}      # template objects (populations, connectivities / operator and node templates) kept for a 2nd build
         try:
             if pop:
                 bump('pop')
-                c = build_pop(spec, dt)
+                c = build_pop(spec, dt, share=shared_objs)
                 names = [f'{p}/lin/x#{i}' for p, q in spec['pops'].items() for i in range(q['n'])]
                 outputs = {p: f'{p}/lin/x' for p in spec['pops']}
             else:
-                c = models.build(spec)
+                if spec.get('matrix'):
+                    bump('matrix_edges')
+                    sb = copy.deepcopy(spec)
+                    sb['edges'] = [e for e in sb['edges'] if 'mx' not in e[2]]
+                    c = models.build(sb)
+                    c.update_var(node_vars=dict(spec['node_values']))
+                    shared_attr = None
+                    for g in spec['matrix']:
+                        if g['share']:
+                            if shared_attr is None:
+                                shared_attr = {'delay': np.array(g['D'])}
+                            attr = shared_attr          # the user hands the same dict to both calls
+                            bump('matrix_attr_dict_reused')
+                        else:
+                            attr = {'delay': np.array(g['D'])}
+                        c.add_edges_from_matrix(g['src_var'], g['tgt_var'], list(g['sources']), list(g['targets']),
+                                                weight=np.array(g['W']), edge_attr=attr)
+                else:
+                    if (cfg.get('prelude') or {}).get('same_object'):
+                        spec['build'] = 'python'
+                        c = models.build(spec, pool=shared_objs)
+                    else:
+                        c = models.build(spec)
                 net = models.RefNet(spec)
+                for key_, v_ in (spec.get('node_values') or {}).items():
+                    n_, o_, var_ = key_.split('/')
+                    net.set_value(n_, o_, var_, v_)
                 names = net.state_names
                 outputs = {f'o{i}': n for i, n in enumerate(names)}
         except Exception as e:
@@ -182,9 +291,16 @@ class C09(Check):
             bump('prelude')
             try:
                 dt_pre = dt * cfg['prelude']['dt_factor']
-                cp = build_pop(spec, dt_pre) if pop else models.build(copy.deepcopy(spec), fname='m_prelude')
+                pkw = dict(kw)
+                if cfg['prelude'].get('same_object') and not spec.get('matrix'):
+                    # another circuit built from the very same template objects (PopulationTemplate / Connectivity, or
+                    # operator / node templates), compiled first
+                    cp = build_pop(spec, dt, share=shared_objs) if pop else models.build(spec, pool=shared_objs)
+                    bump('prelude_same_object')
+                else:
+                    cp = build_pop(spec, dt_pre) if pop else models.build(copy.deepcopy(spec), fname='m_prelude')
                 pf, pargs, _, _ = cp.get_run_func('pre', dt_pre, vectorize=cfg['vectorize'], float_precision='float64',
-                                                  verbose=False, solver='euler', file_name='prelude_fn', **kw)
+                                                  verbose=False, solver='euler', file_name='prelude_fn', **pkw)
                 pre = [pf, np.array(pargs[1], copy=True), pargs[2:], dt_pre, 0]
             except Exception:
                 pre = None
